@@ -232,7 +232,10 @@ func goCode(r *rand.Rand, cfg Cfg, s CodeSite, usesState bool) string {
 // them with the generated Parse (under an expression budget of 200000) and
 // prints one deterministic line per input: "in=.. ok val=..", "in=.. fail
 // val=.. err=.." or "in=.. budget".
-func SupportFile(pkg string, inputs []string) string {
+func SupportFile(pkg string, inputs []string) string { return SupportFileOpts(pkg, inputs, false) }
+
+// SupportFileOpts is SupportFile with the inputs parsed under AllowInvalidUTF8(true) when allowInvalid is set.
+func SupportFileOpts(pkg string, inputs []string, allowInvalid bool) string {
 	var b strings.Builder
 	b.WriteString("// Code generated by pve2e; DO NOT EDIT.\n\npackage " + pkg + "\n\n")
 	b.WriteString(`import (
@@ -329,7 +332,7 @@ func PvRun(w io.Writer) {
 	for _, in := range pvInputs {
 		// the expression budget turns exponential backtracking into a
 		// quick, recognisable outcome
-		v, err := Parse("", []byte(in), MaxExpressions(pvBudget))
+		v, err := Parse("", []byte(in), MaxExpressions(pvBudget)PVEXTRAOPTS)
 		if err != nil && strings.Contains(err.Error(), "max number of expressions parsed") {
 			fmt.Fprintf(w, "in=%q budget\n", in)
 			continue
@@ -342,5 +345,9 @@ func PvRun(w io.Writer) {
 	}
 }
 `)
-	return b.String()
+	extra := ""
+	if allowInvalid {
+		extra = ", AllowInvalidUTF8(true)"
+	}
+	return strings.Replace(b.String(), "PVEXTRAOPTS", extra, 1)
 }
